@@ -277,17 +277,23 @@ def expand_includes(lines, base):
 
 
 def receiver_start(m, k):
-    """index just before the start of the postfix chain (identifiers, `.`, `::`, `&`, `?`, balanced brackets, and
-    whitespace that is followed by a `.`) that ends at offset k of the masked text m"""
+    """index just before the start of the postfix chain (identifiers, `.`, `::`, `&`, `?`, balanced brackets, a
+    `match <expr> { … }` block, and whitespace that is followed by a `.`) that ends at offset k of the masked text m"""
     i, depth = k - 1, 0
     while i >= 0:
         ch = m[i]
-        if ch in ')]':
+        if ch in ')]}':
             depth += 1
-        elif ch in '([':
+        elif ch in '([{':
             if depth == 0:
                 break
             depth -= 1
+            if depth == 0 and ch == '{':
+                # a block as receiver: only `match <scrutinee> { … }` is understood
+                mm = re.search(r'\bmatch\s+[^{};]*$', m[:i])
+                if mm:
+                    return mm.start() - 1
+                return i       # unknown block: the caller will produce something that does not compile (undecided)
         elif depth == 0 and ch in ' \n\t':
             j = i
             while j < k and m[j] in ' \n\t':
